@@ -24,14 +24,14 @@ def _pipeline_obligation(repo):
             consumed[callee] = [ast.unparse(a) for a in node.value.args] + [ast.unparse(k.value) for k in node.value.keywords]
     stages = [("perform_driver_state_updates", "generate_instructions"), ("perform_driver_state_updates", "apply_instructions"),
               ("apply_instructions", "perform_vehicle_state_updates"), ("perform_vehicle_state_updates", "tick")]
-    bad = []
+    bad, unresolved = [], []
     for src, dst in stages:
         if produced.get(src) is None or dst not in consumed:
-            bad.append(f"stage {src} -> {dst} not found")
+            unresolved.append(f"stage {src} -> {dst} not found")          # refactored beyond this rule: undecided
         elif produced[src] not in consumed[dst]:
             bad.append(f"{dst}({', '.join(consumed[dst])}) does not consume {produced[src]}, the state produced by {src}")
-    return {"id": "C20.step_is_a_pipeline.StepSimulation.update", "kind": "data-flow-rule", "status": "refuted" if bad else "proved",
-            "backend": "ast-rule", "secs": 0.0, "props": ["C20"], "detail": "; ".join(bad)}
+    return {"id": "C20.step_is_a_pipeline.StepSimulation.update", "kind": "data-flow-rule", "status": "refuted" if bad else ("unknown" if unresolved else "proved"),
+            "backend": "ast-rule", "secs": 0.0, "props": ["C20"], "no_regress": True, "detail": "; ".join(bad + unresolved)}
 
 
 def extra_obligations(repo, world, ex, R, tier, timeout_ms):
